@@ -284,6 +284,9 @@ type srvRun struct {
 	step     int
 	trace    []string
 	traceMu  sync.Mutex
+	lastSize int
+	limit    int
+	sizeViol bool
 	viol     []string
 }
 
@@ -291,6 +294,20 @@ var extNames = map[int]string{1: "mvt", 2: "png", 3: "jpg", 4: "webp", 5: "avif"
 
 func newSrvRun(cacheMB int) *srvRun {
 	sr := &srvRun{gate: newGate(), current: map[int]*srvVersion{}, history: map[int][]struct{ step, vid int }{}}
+	pmtiles.VerifSetTraceSink(func(s string) { // the values the loop writes to the cache gauges
+		var v int
+		sr.traceMu.Lock()
+		if _, err := fmt.Sscanf(s, "stat limit %d", &v); err == nil {
+			sr.limit = v
+		}
+		if _, err := fmt.Sscanf(s, "stat size %d", &v); err == nil {
+			sr.lastSize = v
+			if sr.limit > 0 && v >= sr.limit {
+				sr.sizeViol = true
+			}
+		}
+		sr.traceMu.Unlock()
+	})
 	srv, _ := pmtiles.NewServerWithBucket(sr.gate, "", quietLogger, cacheMB, "http://pub")
 	sr.srv = srv
 	srv.Start()
@@ -315,7 +332,10 @@ func (sr *srvRun) observe() string {
 	sr.doneCh = nil
 	sr.mu.Unlock()
 	sort.Strings(dn)
-	return "calls=[" + strings.Join(calls, ",") + "] done=[" + strings.Join(dn, ",") + "]"
+	sr.traceMu.Lock()
+	size := sr.lastSize
+	sr.traceMu.Unlock()
+	return fmt.Sprintf("calls=[%s] done=[%s] size=%d", strings.Join(calls, ","), strings.Join(dn, ","), size)
 }
 
 func (sr *srvRun) install(v *srvVersion) {
